@@ -406,15 +406,25 @@ pub fn parse_choice_text(input: &str) -> Result<ParsedChoiceText, CompilerError>
             suffix.to_owned()
         };
         let (start_text, start_tags) = split_text_and_tags(&display)?;
-        let selected = if suffix.is_empty() {
-            Some(display.clone())
-        } else if suffix.starts_with(|c: char| c.is_ascii_punctuation() && c != '"' && c != '\'') {
-            Some(format!("{display}{suffix}"))
+        // A tag ends at the brackets: the text before and after them is joined first,
+        // the tags of both parts follow.
+        let (suffix_text, suffix_tags) = split_text_and_tags(&suffix)?;
+        let joined_start = if start_tags.is_empty() {
+            start_text.clone()
         } else {
-            Some(format!("{display} {suffix}"))
+            start_text.trim_end().to_owned()
         };
-        let (selected_text, selected_tags) =
-            split_text_and_tags(selected.as_deref().unwrap_or(""))?;
+        let selected_text = if suffix_text.is_empty() {
+            joined_start
+        } else if suffix_text
+            .starts_with(|c: char| c.is_ascii_punctuation() && c != '"' && c != '\'')
+        {
+            format!("{joined_start}{suffix_text}")
+        } else {
+            format!("{joined_start} {suffix_text}")
+        };
+        let mut selected_tags = start_tags.clone();
+        selected_tags.extend(suffix_tags);
         return Ok(ParsedChoiceText {
             display_text: start_text.clone(),
             selected_text: Some(selected_text),
@@ -498,8 +508,10 @@ pub fn parse_choice_text(input: &str) -> Result<ParsedChoiceText, CompilerError>
         has_choice_only_content: false,
         inline_target,
         inline_body_nodes: Vec::new(),
+        // Without brackets the whole text is both offered and printed: its tags
+        // belong to the choice and to the line printed when it is chosen.
+        selected_tags: start_tags.clone(),
         start_tags,
         choice_only_tags: Vec::new(),
-        selected_tags: Vec::new(),
     })
 }
